@@ -457,24 +457,9 @@ def make_machine(tier, col):
 
 
 def worker_run(tier, seed, examples, col):
-    import hypothesis  # noqa: PLC0415
-    from hypothesis import HealthCheck, Phase, settings  # noqa: PLC0415
-    from hypothesis.stateful import run_state_machine_as_test  # noqa: PLC0415
-
     from ..run import default_worker_run  # noqa: PLC0415
+    from ..stateful import run_machine  # noqa: PLC0415
 
-    default_worker_run(sys.modules[__name__], tier, seed, examples * 5, col)
-    Machine = make_machine(tier, col)
-    run_state_machine_as_test(
-        hypothesis.seed(seed)(Machine),
-        settings=settings(
-            max_examples=examples,
-            stateful_step_count=Machine.steps,
-            database=None,
-            deadline=None,
-            derandomize=False,
-            report_multiple_bugs=False,
-            phases=(Phase.generate, Phase.shrink),
-            suppress_health_check=[HealthCheck.too_slow, HealthCheck.data_too_large, HealthCheck.large_base_example, HealthCheck.filter_too_much],
-        ),
-    )
+    mod = sys.modules[__name__]
+    default_worker_run(mod, tier, seed, examples * 5, col)
+    run_machine(mod, make_machine(tier, col), seed, examples, col)
